@@ -802,6 +802,13 @@ func (tb *TB) IWrap(a Term, w int, sg bool) Term {
 	return tb.ISub(tb.IModFloor(tb.IAdd(a, half), t2), half)
 }
 
+// ---------- uninterpreted functions ----------
+
+// UF applies an uninterpreted function (declared on first use in each solver session).
+func (tb *TB) UF(name string, ret Sort, args ...Term) Term {
+	return tb.app("uf:"+name, ret, args...)
+}
+
 // ---------- arrays ----------
 
 func (tb *TB) Select(a, i Term) Term { return tb.app("select", bvSort(8), a, i) }
